@@ -2,15 +2,21 @@
 
 The coroutine machine of spec/Flow.tla is the laziest implementation the documentation allows
 (TLC: pulls at every delivery = MinNeed, no work before demand, input pulled only when every
-stage is drained, Split/negative-Slice buffer bounds, termination of Slice(n) after an infinite
-source under fairness).  Binding: every bounded scenario runs on the real pipeline fed by an
-instrumented iterator; at each delivery the real code may have pulled at most what the machine
-pulled; building and calling run() pull nothing; the consumer stops at every k.
-The negative-index branches of Slice are bound through spec/Slice.tla (pull counts, lag).
+stage is drained, Split/negative-Slice buffer bounds, nothing pulled once the consumer has stopped,
+termination of Slice(n) after an infinite source under fairness).  Binding: every bounded scenario
+runs on the real pipeline fed by an instrumented iterator; at each delivery the real code may have
+pulled at most what the machine pulled; building and calling run() pull nothing; the consumer stops
+at every k by close(), by dropping the generator and by throwing into it.
+The negative-index branches of Slice are bound through spec/Slice.tla (pull counts, lag, liveness)
+and, inside pipelines, through the nslice stage of spec/FlowSem.tla.
+Liveness of input values (weak references) is recorded on long flows and checked by Trace_Flow
+against the retention each element documents (AliveBound).
 """
-import gc
 import random
+import threading
+import time
 import weakref
+from concurrent.futures import ThreadPoolExecutor
 
 from .. import core
 from .. import flowlib as fl
@@ -18,10 +24,17 @@ from ..util import CountingIter, exc_name
 
 INF = 1000
 TIMEOUTS = [0]
+STOPKINDS = ("close", "abandon", "throw")
+# (as a Source, nested Sequences, first element of the Source: a callable / the iterator itself)
+BUILDS = ((False, False, None), (True, False, "callable"), (False, True, None), (True, False, "iterable"))
 
 
 class TooManyTimeouts(Exception):
     pass
+
+
+class Boom(Exception):
+    """thrown into the pipeline by the consumer"""
 
 
 class Obj(object):
@@ -32,25 +45,71 @@ class Obj(object):
         self.i = i
 
 
-def build(prog, src, as_source, nested):
+class Ctx(dict):
+    """a context that can be weakly referenced: one per input value"""
+
+
+class Src(object):
+    """Instrumented input: counts pulls, remembers how many of its values were alive at any pull."""
+
+    def __init__(self, n):
+        self.n = n
+        self.pulled = 0
+        self.refs = []
+        self.peak = 0
+
+    def alive(self):
+        return sum(1 for r in self.refs if r() is not None)
+
+    def __iter__(self):
+        return self
+
+    def __next__(self):
+        self.peak = max(self.peak, self.alive())
+        if self.n is not None and self.pulled >= self.n:
+            raise StopIteration
+        i = self.pulled
+        self.pulled += 1
+        c = Ctx()
+        self.refs.append(weakref.ref(c))
+        return (i, c)
+    next = __next__
+
+
+def build(prog, src, as_source, nested, first="callable"):
     import lena.core
     els = [fl.build_stage(st, True, use_context_el=True) for st in prog]
     if nested and len(els) >= 2:
         els = [lena.core.Sequence(els[0]), lena.core.Sequence(*els[1:])]
     if as_source:
-        return lena.core.Source(lambda: src, *els)
+        with fl.quiet_warnings():
+            return lena.core.Source((lambda: src) if first == "callable" else src, *els)
     return lena.core.Sequence(*els)
 
 
-def observe(prog, n, kmax, as_source=False, nested=False, close_at=None):
-    """Run the real pipeline; returns dict(out, pulls, prebuild, prerun, end)."""
-    src = CountingIter(None if n == INF else n, make=lambda i: (i, {}))
+def observe(prog, n, kmax, as_source=False, nested=False, first="callable", stop=None):
+    """Run the real pipeline; returns dict(out, pulls, pulled_at_build, pulled_at_run, end, ...).
+    stop = (k, kind): the consumer stops after k results by close() / dropping the generator / throw()."""
+    src = Src(None if n == INF else n)
     res = {"out": [], "pulls": []}
+    close_at, stopkind = stop if stop else (None, "close")
     with fl.quiet():
-        seq = build(prog, src, as_source, nested)
-        res["pulled_at_build"] = src.pulled
-        gen = seq() if as_source else seq.run(src)
-        res["pulled_at_run"] = src.pulled
+        try:
+            # an implementation that reads its input here never returns on an infinite source
+            with fl.time_limit(2):
+                seq = build(prog, src, as_source, nested, first)
+                res["pulled_at_build"] = src.pulled
+                gen = seq() if as_source else seq.run(src)
+                res["pulled_at_run"] = src.pulled - res["pulled_at_build"]
+        except fl.Watchdog:
+            TIMEOUTS[0] += 1
+            res.update(timeout=True, pulled_at_build=res.get("pulled_at_build", src.pulled),
+                       pulled_at_run=src.pulled - res.get("pulled_at_build", src.pulled), end=src.pulled, alive=0)
+            return res
+        except Exception as exc:    # noqa  (reported by the caller as an output mismatch)
+            res.update(raised="at-construction:" + exc_name(exc), pulled_at_build=src.pulled, pulled_at_run=0,
+                       end=src.pulled, alive=0)
+            return res
         try:
             with fl.time_limit(4):
                 while len(res["out"]) < kmax:
@@ -62,17 +121,45 @@ def observe(prog, n, kmax, as_source=False, nested=False, close_at=None):
                         res["exhausted"] = True
                         break
                     res["out"].append(fl.project(v))
+                    del v
                     res["pulls"].append(src.pulled)
+                    src.peak = max(src.peak, src.alive())
         except fl.Watchdog:
             res["timeout"] = True
             TIMEOUTS[0] += 1
         except Exception as exc:    # noqa  (the real pipeline raised: reported by the caller)
             res["raised"] = exc_name(exc)
-        if hasattr(gen, "close"):
-            before = src.pulled
-            gen.close()
-            res["pulled_by_close"] = src.pulled - before
+        before = src.pulled
+        try:
+            with fl.time_limit(4):
+                if stopkind == "abandon":
+                    del gen         # dropping the last reference finalises the generator chain
+                else:
+                    if stopkind == "throw" and hasattr(gen, "throw"):
+                        try:
+                            gen.throw(Boom())
+                            res["throw_swallowed"] = True
+                        except Boom:
+                            pass
+                        except StopIteration:
+                            pass
+                    elif hasattr(gen, "close"):
+                        gen.close()
+                    if hasattr(gen, "close") and not res.get("throw_swallowed"):
+                        # a stopped generator stays stopped and pulls nothing
+                        try:
+                            next(gen)
+                            res["resumed_after_stop"] = True
+                        except StopIteration:
+                            pass
+                        except Exception as exc:    # noqa
+                            res["raised_after_stop"] = exc_name(exc)
+        except fl.Watchdog:
+            res["timeout"] = True
+            TIMEOUTS[0] += 1
+        res["pulled_by_stop"] = src.pulled - before
     res["end"] = src.pulled
+    res["alive"] = src.peak
     return res
 
 
@@ -80,16 +167,16 @@ def kinds(prog):
     return "+".join(st["t"] for st in prog)
 
 
-def replay(ctx, rec):
+def replay(ctx, rec, salt=0, all_stops=False):
     prog, n = rec["prog"], rec["n"]
     exp_out = [fl.norm_spec_val(v) for v in rec["out"]]
     pulls = rec["pulls"]
     kmax = len(exp_out) + (1 if rec["exhausted"] else 0)
     ok = True
-    for as_source, nested in ((False, False), (True, False), (False, True)):
-        r = observe(prog, n, kmax, as_source, nested)
+    for as_source, nested, first in BUILDS:
+        r = observe(prog, n, kmax, as_source, nested, first)
         ctx.evaluations += 1
-        where = {"prog": prog, "n": n, "source": as_source, "nested": nested}
+        where = {"prog": prog, "n": n, "source": as_source, "nested": nested, "first": first}
         if r["pulled_at_build"] or r["pulled_at_run"]:
             ok = False
             ctx.violation("work-before-demand:%s" % kinds(prog), dict(where, observed=r))
@@ -115,22 +202,28 @@ def replay(ctx, rec):
             ok = False
             ctx.violation("eager-at-end:%s" % kinds(prog),
                           dict(where, spec_end_pulls=rec["endpos"], impl_end_pulls=r["end"]))
-        if r.get("pulled_by_close"):
+        if r.get("pulled_by_stop") or r.get("resumed_after_stop"):
             ok = False
             ctx.violation("pull-on-close:%s" % kinds(prog), dict(where, observed=r))
-    # every consumer stop point k: same prefix, no more pulls than at delivery k, close() pulls nothing
+    # every consumer stop point k: same prefix, no more pulls than at delivery k; stopping pulls nothing
+    # and the stopped pipeline yields nothing more.  The way of stopping and of building rotate with k.
     for k in range(0, len(exp_out)):
-        r = observe(prog, n, kmax, close_at=k)
-        ctx.evaluations += 1
-        lim = pulls[k - 1] if k else 0
-        if r["out"] != exp_out[:k] or r["end"] > lim or r.get("raised"):
-            ok = False
-            ctx.violation("stop-at-k:%s" % kinds(prog),
-                          {"prog": prog, "n": n, "k": k, "allowed_pulls": lim, "observed": r})
+        for j in (range(3) if all_stops else [0]):
+            stopkind = STOPKINDS[(k + n + salt + j) % 3]
+            as_source, nested, first = BUILDS[(k + 2 * n + salt + j) % 4]
+            r = observe(prog, n, kmax, as_source, nested, first, stop=(k, stopkind))
+            ctx.evaluations += 1
+            lim = pulls[k - 1] if k else 0
+            if (r["out"] != exp_out[:k] or r["end"] > lim or r.get("raised") or r.get("timeout")
+                    or r.get("resumed_after_stop") or r.get("raised_after_stop") or r.get("throw_swallowed")):
+                ok = False
+                ctx.violation("stop-at-k:%s%s" % (kinds(prog), "" if stopkind == "close" else ":" + stopkind),
+                              {"prog": prog, "n": n, "k": k, "stop": stopkind, "allowed_pulls": lim,
+                               "source": as_source, "nested": nested, "observed": r})
     return ok
 
 
-def replay_negslice(ctx, rec, lena):
+def replay_negslice(ctx, rec, lena, stops=()):
     """spec/Slice.tla behaviours: pull counts and retained values of negative-index Slices."""
     a, b, s = (None if rec[x] == "None" else int(rec[x]) for x in ("a", "b", "s"))
     n = rec["n"]
@@ -176,6 +269,38 @@ def replay_negslice(ctx, rec, lena):
     if max(alive + [peak[0]]) > bound + 1:
         ctx.violation(key + ":held", {"args": [a, b, s], "n": n, "alive_at_deliveries": alive,
                                       "peak_alive_at_pull": peak[0], "bound": bound})
+    # the consumer stops after k results: the same prefix, no more pulls than at delivery k, nothing afterwards
+    for k, stopkind in stops:
+        if k >= len(rec["out"]):
+            continue
+        src = CountingIter(n, make=Obj)
+        gen = lena.flow.Slice(a, b, s).run(src)
+        got = [next(gen).i for _ in range(k)]
+        lim = rec["pulls"][k - 1] if k else 0
+        at_stop = src.pulled
+        resumed = False
+        if stopkind == "abandon":
+            del gen
+        else:
+            if stopkind == "throw" and hasattr(gen, "throw"):
+                try:
+                    gen.throw(Boom())
+                    resumed = True
+                except (Boom, StopIteration):
+                    pass
+            elif hasattr(gen, "close"):
+                gen.close()
+            if hasattr(gen, "close") and not resumed:
+                try:
+                    next(gen)
+                    resumed = True
+                except StopIteration:
+                    pass
+        ctx.evaluations += 1
+        if got != rec["out"][:k] or at_stop > lim or src.pulled > at_stop or resumed:
+            ctx.violation(key + ":stop-at-k" + ("" if stopkind == "close" else ":" + stopkind),
+                          {"args": [a, b, s], "n": n, "k": k, "allowed_pulls": lim, "pulled_at_stop": at_stop,
+                           "pulled_at_end": src.pulled, "resumed": resumed, "observed": got})
 
 
 def run(ctx):
@@ -183,55 +308,116 @@ def run(ctx):
     tag = "thorough" if ctx.thorough else "quick"
     ctx.assume("the spec machine is the laziest allowed implementation; the code must not pull more at any delivery")
     ctx.assume("pulls after the consumer asks for a result that does not exist are not constrained")
-    ctx.mc("Flow", "Flow_c02_%s.cfg" % tag, coverage=True,
-           must_cover=("Ask", "StageNeed", "StageHave", "StageEof", "Source", "Deliver"))
-    ctx.mc("Flow", "Flow_c02_live.cfg")
-    ctx.mc("Slice", "Slice_mc.cfg")
-    recs = ctx.export("Flow", "Flow_c02_%s_export.cfg" % tag, min_records=500)
+    lock = threading.Lock()
+    account = ctx._account
+
+    def locked_account(*a, **kw):
+        with lock:
+            return account(*a, **kw)
+    ctx._account = locked_account
+    machine = ("Ask", "StageNeed", "StageHave", "StageEof", "Source", "Deliver")
+    ext = "Flow_c02_ext_thorough" if ctx.thorough else "Flow_c02_ext"
+    w = max(2, ctx.nworkers // 2)
+    with ThreadPoolExecutor(max_workers=8) as pool:
+        jobs = {
+            "mc": pool.submit(ctx.mc, "Flow", "Flow_c02_%s.cfg" % tag, coverage=True,
+                              must_cover=machine + (() if ctx.thorough else ("Stop", "Abort"))),
+            "mc_ext": pool.submit(ctx.mc, "Flow", ext + ".cfg", workers=w, coverage=True,
+                                  must_cover=machine + ("Stop", "Abort")),
+            "live": pool.submit(ctx.mc, "Flow", "Flow_c02_live.cfg"),
+            "slice": pool.submit(ctx.mc, "Slice", "Slice_mc.cfg", workers=w),
+            "export": pool.submit(ctx.export, "Flow", "Flow_c02_%s_export.cfg" % tag, min_records=500),
+            "ext": pool.submit(ctx.export, "Flow", ext + "_export.cfg", min_records=500),
+            "sexport": pool.submit(ctx.export, "Slice", "Slice_export.cfg", min_records=1000),
+        }
+        res = {k: j.result() for k, j in jobs.items()}
+    cpu = {"tlc_wall": round(time.time() - ctx.t0, 1)}
+    t_cpu = [time.process_time()]
+
+    def lap(name):
+        now = time.process_time()
+        cpu[name] = round(now - t_cpu[0], 1)
+        t_cpu[0] = now
+    ctx.extra["phase_cpu_s"] = cpu
+    recs = res["export"] + res["ext"]
     try:
         for rec in recs:
-            replay(ctx, rec)
+            replay(ctx, rec, salt=ctx.seed, all_stops=ctx.thorough)
             ctx.traces += 1
             if rec["prog"] and rec["n"]:
                 ctx.distinct.add(core.canon([rec["prog"], rec["n"]]))
     except TooManyTimeouts:
         return ctx.finish(rule="aborted after three non-terminating real runs (reported as violations)")
-    ctx.sample({"spec_behaviour": recs[len(recs) // 2]})
+    lap("pipelines")
+    ctx.sample({"spec_behaviour": res["export"][len(res["export"]) // 2]})
+    ctx.sample({"spec_behaviour_extended_vocabulary": res["ext"][len(res["ext"]) // 2]})
     inf = [r for r in recs if r["n"] == INF and r["exhausted"]]
     ctx.extra["infinite_source_terminating_scenarios"] = len(inf)
     if inf:
         ctx.sample({"spec_behaviour_infinite_source": inf[len(inf) // 2]})
     # negative-index Slice: pull/yield machine of Slice.tla
-    srecs = ctx.export("Slice", "Slice_export.cfg", min_records=1000)
+    srecs = res["sexport"]
     nneg = 0
     for rec in srecs:
         if rec["branch"] != "islice" and (ctx.thorough or (rec["n"] in (0, 3, 7, 10))):
-            replay_negslice(ctx, rec, lena)
+            m = len(rec["out"])
+            if ctx.thorough:
+                stops = [(k, STOPKINDS[(k + j) % 3]) for k in range(m) for j in range(3)]
+            elif rec["n"] in (7, 10):
+                stops = [(k, STOPKINDS[(k + nneg + ctx.seed) % 3]) for k in sorted({0, 1, m // 2})]
+            else:
+                stops = ()
+            try:
+                replay_negslice(ctx, rec, lena, stops)
+            except Exception as exc:    # noqa  (the real Slice raised)
+                ctx.violation("negslice:branch=%s:raised:%s" % (rec["branch"], exc_name(exc)),
+                              {"args": [rec["a"], rec["b"], rec["s"]], "n": rec["n"]})
             nneg += 1
             ctx.traces += 1
             ctx.distinct.add(core.canon(["neg", rec["a"], rec["b"], rec["s"], rec["n"]]))
     ctx.extra["negative_slice_scenarios"] = nneg
+    lap("negslice")
     # ---- code -> spec: random streaming pipelines with recorded pull vectors
     rnd = random.Random(ctx.seed)
-    alphabet = ["map", "map", "filter", "slice", "lagk", "count", "runif", "split"]
+    alphabet = ["map", "map", "filter", "slice", "lagk", "count", "runif", "split", "lagslice", "nodata", "print", "splitx"]
     trace = []
     ntr = 1200 if ctx.thorough else 250
+
+    def random_prog(maxlen, small_blocks=False):
+        prog = [fl.random_stage(rnd, alphabet) for _ in range(rnd.randint(1, maxlen))]
+        for st in prog:
+            if st["t"] == "split":
+                st["brs"] = [b for b in st["brs"] if b["t"] not in ("sum", "fcsum")] or [{"t": "map", "f": "inc"}]
+                if small_blocks and (st["bs"] == fl.NONE or st["bs"] > 4):
+                    st["bs"] = 3
+        return prog
     attempts = 0
     while len(trace) < ntr and attempts < 2 * ntr:
         attempts += 1
-        prog = [fl.random_stage(rnd, alphabet) for _ in range(rnd.randint(1, 6))]
-        for st in prog:
-            if st["t"] == "split":
-                st["brs"] = [b for b in st["brs"] if b["t"] != "sum"] or [{"t": "map", "f": "inc"}]
+        prog = random_prog(6)
         n = rnd.randint(0, 12)
-        r = observe(prog, n, 10 ** 6, as_source=rnd.random() < 0.3, nested=rnd.random() < 0.3)
+        r = observe(prog, n, 10 ** 6, as_source=rnd.random() < 0.3, nested=rnd.random() < 0.3,
+                    first=rnd.choice(["callable", "iterable"]))
         if r.get("timeout"):
             ctx.violation("no-termination:%s" % kinds(prog), {"prog": prog, "n": n})
             break
         if r.get("raised"):
             ctx.violation("random-run:raised:%s" % r["raised"], {"prog": prog, "n": n})
             continue
-        trace.append({"prog": prog, "n": n, "pairs": True, "out": r["out"], "pulls": r["pulls"], "lazy": True})
+        trace.append({"prog": prog, "n": n, "pairs": True, "out": r["out"], "pulls": r["pulls"], "lazy": True,
+                      "alive": -1})
+    # long flows: the input values alive at any pull or delivery stay within what the elements document
+    nlong = 150 if ctx.thorough else 40
+    for _ in range(nlong):
+        prog = random_prog(4, small_blocks=True)
+        n = 40
+        r = observe(prog, n, 10 ** 6, as_source=rnd.random() < 0.3, nested=rnd.random() < 0.3)
+        if r.get("timeout") or r.get("raised"):
+            ctx.violation("random-run:long:%s" % (r.get("raised") or "timeout"), {"prog": prog, "n": n})
+            continue
+        trace.append({"prog": prog, "n": n, "pairs": True, "out": r["out"], "pulls": [], "lazy": False,
+                      "alive": r["alive"]})
+    lap("random")
     acc = ctx.validate("Trace_Flow", "Trace_Flow.cfg", trace) if trace else 0
     ctx.traces += acc
     ctx.evaluations += len(trace)
@@ -239,9 +425,11 @@ def run(ctx):
         ctx.distinct.add(core.canon(r))
     if acc < len(trace):
         r = trace[acc]
-        ctx.violation("Trace_Flow:rejected:%s" % kinds(r["prog"]), {"record": r, "index": acc})
+        ctx.violation("Trace_Flow:rejected:%s%s" % (kinds(r["prog"]), ":alive" if r["alive"] >= 0 else ""),
+                      {"record": r, "index": acc})
     if trace:
         ctx.sample({"recorded_trace_record": trace[min(5, len(trace) - 1)]})
+        ctx.sample({"recorded_trace_record_liveness": trace[-1]})
     if trace and acc == len(trace) and not ctx.violations:
         bad = [dict(r) for r in trace[:40]]
         k = next(i for i, r in enumerate(bad) if r["pulls"] and r["pulls"][0] < r["n"])
@@ -250,8 +438,19 @@ def run(ctx):
         if acc2 != k:
             raise core.MachineryError("Trace_Flow does not bind pulls: corrupted %d accepted %d" % (k, acc2))
         ctx.extra["binding_demo"] = "record %d with every pull count increased by one is rejected at index %d" % (k, acc2)
+        long_ = [dict(r) for r in trace if r["alive"] >= 0][:10]
+        if long_:
+            long_[-1] = dict(long_[-1], alive=10 * long_[-1]["n"])
+            acc3 = ctx.validate("Trace_Flow", "Trace_Flow.cfg", long_, label="corrupt_alive")
+            if acc3 != len(long_) - 1:
+                raise core.MachineryError("Trace_Flow does not bind liveness: corrupted %d accepted %d" % (len(long_) - 1, acc3))
+            ctx.extra["binding_demo_liveness"] = ("record %d claiming %d input values alive at once is rejected "
+                                                 "at index %d" % (len(long_) - 1, long_[-1]["alive"], acc3))
     return ctx.finish(
-        rule="S2C: all streaming programs of the bounded model x finite/infinite sources, each as Sequence, "
-             "Source tail and nested, plus every consumer stop point k; negative-index Slice scenarios of "
-             "Slice.tla with pull counts and weak-reference liveness; C2S: random pipelines with pull vectors",
+        rule="S2C: all streaming programs of the bounded models (vocabulary and extended vocabulary: Print, elements "
+             "without data, negative Slices, Split empty / nested / bufsize None, 1, 1000) x finite/infinite sources, "
+             "each as Sequence, Source tail (callable and iterator first element) and nested, plus every consumer stop "
+             "point k by close / drop / throw; negative-index Slice scenarios of "
+             "Slice.tla with pull counts, stop points and weak-reference liveness; C2S: random pipelines with pull "
+             "vectors, long flows with liveness",
         exhaustive=True)
